@@ -2,7 +2,7 @@ SPECIFICATION Spec
 CONSTANTS
   MaxStmts = 1
   MaxDecorated = 2
-  NTexts = 10
+  NTexts = 12
   Export = TRUE
 INVARIANT Inv
 CHECK_DEADLOCK FALSE
